@@ -298,3 +298,29 @@ def only_called_from(m, fd, allowed, depth=2):
                     callers.append(g)
                     break
     return bool(callers) and all(only_called_from(m, g, allowed, depth - 1) for g in callers)
+
+
+def check_no_pickled_hash_cache(c, rule, modules, why):
+    """a hand-written __hash__ that stores its value on the instance, in a class
+    without a __getstate__ that drops it: the (hash-seed dependent) value travels in
+    the pickle to another process (another MPI rank, a persistent cache)"""
+    import ast
+    m = c.model
+    n = 0
+    for qn, ci in sorted(m.classes.items()):
+        if not any(qn.startswith(x + ".") for x in modules) or "__hash__" not in ci.methods:
+            continue
+        n += 1
+        fd = ci.methods["__hash__"]
+        src = ast.unparse(fd)
+        caches = "__setattr__" in src or any(
+            isinstance(x, ast.Assign) and any(
+                isinstance(t, ast.Attribute) and isinstance(t.value, ast.Name)
+                and t.value.id == fd.args.args[0].arg for t in x.targets)
+            for x in ast.walk(fd))
+        has_gs = m.resolve_method(qn, "__getstate__") is not None
+        c.check((not caches) or has_gs, rule, f"{short(qn)}.__hash__",
+                "no-unpickled-hash-cache", m.loc(ci.module, fd),
+                "hand-written __hash__ caches on the instance but the class has no "
+                "__getstate__ dropping the cache: " + why)
+    return n
